@@ -374,6 +374,17 @@ def build(ctx):
             src = c11obs[f"{fn}.elementwise[{dt}]"]
             obs.append(Obligation(f"array.{fn.split('.')[1]}[{dt}]", "array evaluation: " + src.statement + " (so continuity, ordering and branch selection hold element-wise for arrays in any order)", src.run, src.functions, src.backend, src.replay))
 
+    from ..xcheck import array_xcheck, scalar_xcheck
+    for q_ in (BO, MU, SPV, PBF):
+        an = ["T", "api", "gg", "R"] if q_ == PBF else ["T", "p", "api", "gg", "R"]
+        obs.append(scalar_xcheck(ctx, q_, an, OB if q_ == PBF else OBP, hyp_real=(lambda pt, q_=q_: admissible(pt) and (q_ != SPV or pt["p"] >= real_pb(pt)))))
+    cases = []
+    for dt in ("f8", "f4", "i8", "i4"):
+        cases.append((dict(T=200.0, api=35.0, gg=0.8, R=650.0), [500, 1500, 2500, 3500, 6000], dt))
+        cases.append((dict(T=150, api=30, gg=0.9, R=400), [4000, 300, 2000], dt))
+    for q_ in (BO, RS):
+        obs.append(array_xcheck(ctx, q_, ["T", "p", "api", "gg", "R"], "p", cases))
+
     def canary():
         pb, c, lo, hi = branches(ctx, RS)
         return be.prove_int(tm.sub(tm.diff(lo.value, p), tm.rconst("0.5")), OBP, mode=">0", max_boxes=5000)
